@@ -226,8 +226,13 @@ pub(crate) fn lehmer_step(x: &mut [Word], y: &mut [Word], a: Word, b: Word, c: W
 #[inline]
 pub fn memory_requirement_up_to(lhs_len: usize, rhs_len: usize) -> Layout {
     // Required memory:
-    // - temporary space for the division in the euclidean step
-    div::memory_requirement_exact(lhs_len, rhs_len)
+    // - temporary space for the division in the euclidean step. The operands shrink at different
+    //   speeds, so a later step can divide any pair of lengths below the initial ones: take the
+    //   worst case of the divide and conquer division (a product of at most rhs_len by rhs_len / 2)
+    memory::max_layout(
+        div::memory_requirement_exact(lhs_len, rhs_len),
+        mul::memory_requirement_up_to(rhs_len, rhs_len / 2),
+    )
 }
 
 pub(crate) fn gcd_in_place(
